@@ -174,7 +174,16 @@ def check(program, modules):
                 caller = _owner(c)
                 cps = set(formals(caller)) if caller is not None else set()
                 dfl = defaults(fn)
+                # (a parameter the caller did not have in the reference
+                # tree is read at its default there: not forwarding it is
+                # what the default path does)
+                newp = set()
+                if caller is not None and getattr(
+                        caller, "_qualname", None) is not None:
+                    newp = set(m.new_params.get(caller._qualname, ()))
                 for n_ in names:
+                    if n_ in newp:
+                        continue
                     if n_ in dfl and n_ in cps and n_ not in b and \
                             n_ not in ("self", "cls") and \
                             (call_name(c)[0], n_) not in DROP_OK and \
